@@ -62,7 +62,6 @@ FUNCTIONS = [
     ('isotp/protocol.py', 'TransportLayerLogic', '_request_tx_flowcontrol'),
     ('isotp/protocol.py', 'TransportLayerLogic', '_start_reception_after_first_frame_if_valid'),
     ('isotp/protocol.py', 'TransportLayerLogic', '_stop_sending'),
-    ('isotp/protocol.py', 'TransportLayerLogic', '_process_tx'),
     ('isotp/protocol.py', 'TransportLayerLogic', '_make_flow_control'),
     ('isotp/protocol.py', 'TransportLayerLogic', '_make_tx_msg'),
     ('isotp/protocol.py', 'TransportLayerLogic', '_pad_message_data'),
@@ -86,6 +85,79 @@ FUNCTIONS = [
     ('isotp/tools.py', 'Timer', 'start'),
     ('isotp/tools.py', 'Timer', 'elapsed_ns'),
     ('isotp/tools.py', 'Timer', 'remaining_ns'),
+]
+
+# REGIONS: loop-free parts of functions that contain a loop (`_process_tx` has `while read_tx_queue`, which is outside the subset).  Each is a
+# list of consecutive statements located STRUCTURALLY in the function (not by line number); a region that cannot be located becomes an
+# unsupported stub.  (file, class, function, region name, locator: function body -> list of statements or None)
+def _is_call_test(n, needle):
+    return needle in ast.dump(n)
+
+
+def _ptx_dispatch_index(body):
+    """index of the top-level `if self.tx_state == IDLE: ... elif ...` statement of _process_tx (the one that contains the while loop)"""
+    for k, st in enumerate(body):
+        if isinstance(st, ast.If) and any(isinstance(x, ast.While) for x in ast.walk(st)):
+            return k
+    return None
+
+
+def _ptx_prefix(body):
+    k = _ptx_dispatch_index(body)
+    return None if k is None else body[:k]
+
+
+def _ptx_tail(body):
+    k = _ptx_dispatch_index(body)
+    return None if k is None else body[k + 1:]
+
+
+def _ptx_branch(needle):
+    def loc(body):
+        k = _ptx_dispatch_index(body)
+        if k is None:
+            return None
+        node = body[k]
+        while isinstance(node, ast.If):
+            if needle in ast.dump(node.test):
+                return node.body
+            node = node.orelse[0] if len(node.orelse) == 1 else None
+        return None
+    return loc
+
+
+def _ptx_try(body):
+    k = _ptx_dispatch_index(body)
+    if k is None:
+        return None
+    for x in ast.walk(body[k]):
+        if isinstance(x, ast.Try):
+            return x.body
+    return None
+
+
+def _ptx_before_try(body):
+    """the statements of the non-empty-payload branch that precede the try (size_on_first_byte, size_offset)"""
+    k = _ptx_dispatch_index(body)
+    if k is None:
+        return None
+    for x in ast.walk(body[k]):
+        if isinstance(x, ast.If) and x.orelse and any(isinstance(y, ast.Try) for y in x.orelse):
+            out = []
+            for y in x.orelse:
+                if isinstance(y, ast.Try):
+                    return out
+                out.append(y)
+    return None
+
+
+REGIONS = [
+    ('isotp/protocol.py', 'TransportLayerLogic', '_process_tx', 'prefix', _ptx_prefix),
+    ('isotp/protocol.py', 'TransportLayerLogic', '_process_tx', 'standby', _ptx_branch('TRANSMIT_SF_STANDBY')),
+    ('isotp/protocol.py', 'TransportLayerLogic', '_process_tx', 'transmit_cf', _ptx_branch("attr='TRANSMIT_CF'")),
+    ('isotp/protocol.py', 'TransportLayerLogic', '_process_tx', 'before_start', _ptx_before_try),
+    ('isotp/protocol.py', 'TransportLayerLogic', '_process_tx', 'start_tx', _ptx_try),
+    ('isotp/protocol.py', 'TransportLayerLogic', '_process_tx', 'tail', _ptx_tail),
 ]
 
 # classes whose members / integer constants are dumped: (file, dotted class path)
@@ -375,6 +447,33 @@ def translate(repo):
         out.append('/-- %s.%s (%s) -/' % (cls, fn, f))
         out.append('def %s : PBlock :=\n    %s' % (name, body))
         out.append('def %s_params : List String := [%s]' % (name, ', '.join(lstr(p) for p in params)))
+        out.append('')
+        report[name] = 'unsupported' if '.unsupported' in body else 'ok'
+    # regions
+    for f, cls, fn, rname, loc in REGIONS:
+        if f not in trees:
+            trees[f] = ast.parse(open(os.path.join(repo, f), encoding='utf-8', newline=None).read())
+        c = find_class(trees[f], cls)
+        fd = None
+        if c is not None:
+            for m in c.body:
+                if isinstance(m, ast.FunctionDef) and m.name == fn:
+                    fd = m
+        name = lean_name(cls, fn) + '__' + rname
+        stmts = None
+        if fd is not None:
+            try:
+                stmts = loc(fd.body)
+            except Exception:
+                stmts = None
+        if not stmts:
+            out.append('/-- region %s of %s.%s: NOT FOUND -/' % (rname, cls, fn))
+            out.append('def %s : PBlock := .cons (.unsupported "region not found") .nil' % name)
+            report[name] = 'missing'
+            continue
+        body = block(stmts)
+        out.append('/-- region `%s` of %s.%s (%s): %d consecutive statements located structurally -/' % (rname, cls, fn, f, len(stmts)))
+        out.append('def %s : PBlock :=\n    %s' % (name, body))
         out.append('')
         report[name] = 'unsupported' if '.unsupported' in body else 'ok'
     # class constants
